@@ -168,6 +168,26 @@ def run_case(case):
                     else:
                         if cls in ("sym", "unsym") and cond <= 1e4 and r > 1e-5 * (nA * nx + nb) * 1.01:
                             bad("minres_residual", f"returned residual {r:.3e} > 1e-5(|A||x|+|b|)={1e-5 * (nA * nx + nb):.3e} (cond {cond:.1e})", at)
+    # the same matrix OBJECT with its data updated in place: a new solver request must see the new values
+    if cls in ("sym", "unsym") and cond <= 1e4:
+        for sname in ("LU", "GMRES") + (("MINRES",) if cls == "sym" else ()):
+            st = LinearSolverType[sname]
+            sm2 = sps.coo_matrix(M).asformat(case["fmt"])
+            b = np.resize(np.array([1.0, -2.0, 0.5, 3.0, -0.25]), n)
+            try:
+                with np.errstate(all="ignore"):
+                    linear_solver(sm2, st, symmetric=(sname == "MINRES")).solve(b.copy())
+                    sm2.data *= 3.0
+                    sm2.data[0] += 0.5 * abs(sm2.data[0]) if cls == "unsym" else 0.0
+                    A2 = sm2.toarray()
+                    x2 = linear_solver(sm2, st, symmetric=(sname == "MINRES")).solve(b.copy())
+            except LinearSolverError:
+                continue
+            stats["solves"] += 2
+            r2 = float(np.linalg.norm(A2.dot(x2) - b))
+            if r2 > 1e-4 * (float(np.linalg.norm(A2)) * float(np.linalg.norm(x2)) + float(np.linalg.norm(b))):
+                bad(f"stale_after_inplace_update|{sname}", f"after the matrix was updated in place a newly requested solver returned residual {r2:.2e}",
+                    {"mat": name, "fmt": case["fmt"], "solver": sname})
     seen, vs = set(), []
     for v in viol:
         if v["sig"] not in seen:
